@@ -14,19 +14,22 @@ Managed-address objects are *heap objects with identity* (`Mem.heap`): the same 
 in `acctInfo.lastExternalAddr`, and in `deriveOnUnlock`; `Manager.lock()` only walks some of these.
 
 `Cfg` carries one flag per code variant the Go engine detects on the tree under test, so that one model follows
-both the original snapshot and the fixed tree:
+both the original snapshot and the fixed tree (in parentheses: the /repo commit that turns the flag on; every one of
+them is in /repo today, so the current tree is `Cfg.fixed`):
   f1  : lock() purges privKeyCache and DeriveFromKeyPathCache refuses up front when locked/watch-only  (28aa715)
   f2  : Unlock skips cached accounts without an encrypted private key                                    (37f56ec)
-  f2b : Unlock drops derive-on-unlock entries whose derived key is public (watch-only account)           (patch F2b)
+  f2b : Unlock drops derive-on-unlock entries whose derived key is public (watch-only account)           (2a11dd6)
   f3  : extendAddresses uses `len(acctKeyEncrypted)==0` as its watch-only test                           (fd5efc1)
-  f11 : lock() also wipes acctInfo.lastExternalAddr/lastInternalAddr                                    (patch F11)
+  f11 : lock() also wipes acctInfo.lastExternalAddr/lastInternalAddr                                    (15e7986)
   f12 : the salted passphrase is built in a fresh buffer (an EMPTY passphrase does not alias, and then wipe,
-        `privPassphraseSalt` through `append(salt[:], passphrase...)` + `zero.Bytes`)                    (not fixed)
+        `privPassphraseSalt` through `append(salt[:], passphrase...)` + `zero.Bytes`)                    (aeb55de)
 
   f13 : the onCommit closure of nextAddresses wipes the clear-text key of the address objects it caches when the
-        manager is locked at commit time                                                                 (patch F13)
+        manager is locked at commit time                                                                 (bb83ae8)
   fo1 : Unlock restores cryptoKeyScript from cryptoKeyScriptEncrypted (it used to stay the zero key) and
         deletePrivateKeys also handles secret taproot script rows                                        (b81a3ff)
+Not flagged (modelled as the fixed behaviour only): /repo b4b754f, `DeriveFromKeyPathCache` answers ErrWatchingOnly for a
+cached account without a private key (`deriveCache`: `!info.keyPriv`); before it an unlocked manager panicked.
 
 The empty passphrase has id `EMPTY = 0`.
 -/
@@ -45,9 +48,11 @@ structure Cfg where
 deriving Repr, DecidableEq, Inhabited
 
 def Cfg.fixed : Cfg := ⟨true, true, true, true, true, true, true, true, 10000⟩
-/-- /repo at ebb54a5 (first delivery): f12, f13, fo1 open -/
+/-- HISTORICAL tree, not the current one: /repo at ebb54a5 (first delivery), where f12, f13 and fo1 were still open
+(fixed since by aeb55de, bb83ae8, b81a3ff).  Kept because the counter-example theorems of C05/C08 are stated on it.
+The current /repo is `Cfg.fixed`. -/
 def Cfg.repo : Cfg := ⟨true, true, true, true, true, false, false, false, 10000⟩
-/-- /repo at b81a3ff: only f13 open -/
+/-- HISTORICAL tree: /repo at b81a3ff, where only f13 was open (fixed since by bb83ae8) -/
 def Cfg.repo2 : Cfg := ⟨true, true, true, true, true, true, false, true, 10000⟩
 def Cfg.snapshot : Cfg := ⟨false, false, false, false, false, false, false, false, 10000⟩
 
@@ -733,7 +738,7 @@ def deriveCache (cfg : Cfg) (m : Mem) (sc : Nat) (p : Path) : Mem × Option Err 
       | none => (m, some .accountNotCached)
       | some info =>
         let priv := !m.locked && !m.watchOnly
-        -- /repo 9c… "DeriveFromKeyPathCache refuses accounts that have no private key": acctKeyPriv == nil ⇒
+        -- /repo b4b754f "DeriveFromKeyPathCache refuses accounts that have no private key": acctKeyPriv == nil ⇒
         -- ErrWatchingOnly (before that fix an unlocked manager dereferenced the nil key and panicked)
         if !info.keyPriv then (m, some .watchingOnly)
         else if !priv then (m, some .notPrivExtKey)
